@@ -972,12 +972,6 @@ class TrustRegion:
             self.models.cub_val[best_index, :],
             self.models.ceq_val[best_index, :],
         )
-        tol = (
-            10.0
-            * EPS
-            * max(self.models.n, self.models.npt)
-            * max(abs(m_best), 1.0)
-        )
         for k in range(self.models.npt):
             if k != self.best_index:
                 x_val = self.models.interpolation.point(k)
@@ -991,6 +985,12 @@ class TrustRegion:
                     x_val,
                     self.models.cub_val[k, :],
                     self.models.ceq_val[k, :],
+                )
+                tol = (
+                    10.0
+                    * EPS
+                    * max(self.models.n, self.models.npt)
+                    * max(abs(m_best), 1.0)
                 )
                 if m_val < m_best or (m_val < m_best + tol and r_val < r_best):
                     best_index = k
